@@ -146,12 +146,52 @@ fn perm_case() -> impl Strategy<Value = PermCase> {
     })
 }
 
+/// Programs can ask whether some solution of the set solves a predicate with given data (PredicateExists): the
+/// answer is about the *set*, so it must not depend on where the solutions stand in the list.
+#[derive(Clone, Debug, Hash, Serialize, Deserialize)]
+pub struct PexOrder {
+    pub case: crate::real::ExecCase,
+    pub perm_choices: Vec<u32>,
+}
+
+fn oracle_pex_order(pc: &PexOrder, obs: &mut Obs) -> Result<(), Violation> {
+    // as generated
+    crate::props::c12::oracle(&pc.case, obs)?;
+    // permuted: the executing solution keeps its identity (its index moves with it)
+    let n = pc.case.solutions.len();
+    let perm = permutation(n, &pc.perm_choices);
+    let mut c = pc.case.clone();
+    c.solutions = perm.iter().map(|i| pc.case.solutions[*i].clone()).collect();
+    c.index = perm.iter().position(|i| *i == pc.case.index).unwrap_or(0);
+    let mut o2 = Obs::default();
+    crate::props::c12::oracle(&c, &mut o2).map_err(|mut v| {
+        v.signature = format!("set:pex-order:{}", v.signature);
+        v.message = format!("after permuting the solutions with {perm:?}: {}", v.message);
+        v
+    })?;
+    let shared = (0..n).any(|i| (0..i).any(|j| pc.case.solutions[i].contract == pc.case.solutions[j].contract && pc.case.solutions[i].predicate == pc.case.solutions[j].predicate));
+    if shared {
+        obs.label("several-solutions-of-one-predicate");
+    }
+    obs.nontrivial_if(n >= 2 && perm.iter().enumerate().any(|(i, p)| i != *p));
+    Ok(())
+}
+
 pub fn property() -> Property {
     Property {
         id: "C04",
-        rule: "generated solution sets of 1..6 solutions (7 with a verbatim duplicate) over shared and distinct contracts, shared predicates, overlapping key universes, declared mutations (15% deliberately colliding across solutions), emit leaves computing mutations whose keys can collide with other solutions' declared keys, cross-solution post-state reads; paired with a generated permutation of the solutions. Metamorphic oracle: content address equal, check_set verdict equal, and - if check_set accepts - two-pass verdict (Ok/Err) equal, total gas equal, computed mutations per solution equal (matched by solution value, not position); plus the direct invariant: an accepted set and the set returned by the two-pass check propose at most one value per (contract, key). Non-trivial = >= 2 solutions, a non-identity permutation and two solutions sharing a contract (or a colliding set that must be rejected).",
+        rule: "generated solution sets of 1..6 solutions (7 with a verbatim duplicate) over shared and distinct contracts, shared predicates, overlapping key universes, declared mutations (15% deliberately colliding across solutions), emit leaves computing mutations whose keys can collide with other solutions' declared keys, cross-solution post-state reads; paired with a generated permutation of the solutions. Metamorphic oracle: content address equal, check_set verdict equal, and - if check_set accepts - two-pass verdict (Ok/Err) equal, total gas equal, computed mutations per solution equal (matched by solution value, not position); plus the direct invariant: an accepted set and the set returned by the two-pass check propose at most one value per (contract, key). PredicateExists look-ups (what programs can observe of the other solutions) are executed against the set in generated and in permuted order, both compared with RefVm. Non-trivial = >= 2 solutions, a non-identity permutation and two solutions sharing a contract (or a colliding set that must be rejected).",
         assumptions: vec!["which solution an error is attributed to may depend on the order; only Ok vs Err is compared"],
         health: vec![("set.permute", "accepted-by-check_set", 500), ("set.permute", "two-pass-ok", 150), ("set.permute", "slot-collision-rejected", 10)],
-        subs: vec![prop_sub("set.permute", 160_000, 1_280_000, |_| perm_case(), oracle)],
+        subs: vec![
+            prop_sub("set.permute", 160_000, 1_280_000, |_| perm_case(), oracle),
+            prop_sub(
+                "set.predicate_exists_order",
+                24_000,
+                200_000,
+                |_| (crate::props::c12::pex_case(), proptest::collection::vec(any::<u32>(), 6)).prop_map(|(case, perm_choices)| PexOrder { case, perm_choices }),
+                oracle_pex_order,
+            ),
+        ],
     }
 }
